@@ -112,9 +112,12 @@ def run_tlc(wd, module, cfg, workers=16, args=(), timeout=3600, env=None, java_o
     return r
 
 
-def model_check(module, cfg, workers=16, coverage=True, timeout=3600, dump=False, args=()):
-    """Exhaustive model checking.  Returns (Result, dumped states or None)."""
+def model_check(module, cfg, workers=16, coverage=True, timeout=3600, dump=False, args=(), files=None):
+    """Exhaustive model checking.  Returns (Result, dumped states or None).
+    files: extra generated files {name: text} (e.g. an MC module whose constants come from a driver universe)."""
     with Workdir() as w:
+        for name, text in (files or {}).items():
+            w.write(name, text)
         a = list(args)
         if coverage:
             a += ['-coverage', '1']
